@@ -28,7 +28,7 @@ class Finding:
     path: list[str] = field(default_factory=list)
 
     def key(self) -> tuple:
-        return (self.prop, self.rule, self.construct, abstract_private(self.statement))
+        return (self.prop, self.rule, module_free(self.construct), abstract_private(self.statement))
 
     def to_json(self) -> dict:
         return {
@@ -40,6 +40,17 @@ class Finding:
             "message": self.message,
             "path": self.path,
         }
+
+
+def module_free(construct: str) -> str:
+    """``pkg._mod.Class.method`` -> ``Class.method``, ``pkg._mod.func`` ->
+    ``func``: a recorded finding stays the same finding when its module is
+    renamed, split or merged."""
+    parts = (construct or "").split(".")
+    i = 0
+    while i < len(parts) - 1 and not parts[i][:1].isupper() and not parts[i].lstrip("_")[:1].isupper():
+        i += 1
+    return ".".join(parts[i:])
 
 
 _PRIVATE = re.compile(r"(?<![A-Za-z0-9_])_[a-z][A-Za-z0-9_]*")
@@ -125,13 +136,13 @@ class Check:
     # ---------------------------------------------------------------- output
     def unlisted(self) -> list:
         """Findings that are not recorded in known_findings.json."""
-        keys = {(k["property"], k["rule"], k["construct"], abstract_private(k["statement"])) for k in load_known().get("findings", [])}
+        keys = {(k["property"], k["rule"], module_free(k["construct"]), abstract_private(k["statement"])) for k in load_known().get("findings", [])}
         return [f for f in self.findings if f.key() not in keys]
 
     def finish(self, write_evidence: bool = True, quiet: bool = False) -> int:
         known = load_known()
         known_keys = {
-            (k["property"], k["rule"], k["construct"], abstract_private(k["statement"])): k
+            (k["property"], k["rule"], module_free(k["construct"]), abstract_private(k["statement"])): k
             for k in known.get("findings", [])
         }
         new: list[Finding] = []
